@@ -175,10 +175,19 @@ impl Manifest {
             serde_json::to_writer(&mut json, entry)?;
         }
         serde_json::to_writer(&mut json, &ManifestOperation::End)?;
+        #[cfg(feature = "verif")]
+        crate::verif::crash_point("manifest_append.before", "manifest");
         file.write_all(&json).await?;
+        #[cfg(feature = "verif")]
+        {
+            file.flush().await?;
+            crate::verif::crash_point("manifest_append.written", "manifest");
+        }
         if self.enable_fsync {
             file.sync_data().await?;
         }
+        #[cfg(feature = "verif")]
+        crate::verif::crash_point("manifest_append.synced", "manifest");
         Ok(())
     }
 }
